@@ -376,7 +376,7 @@ class ProducerStub:
         iConsumer.finalize()
 
 
-@scenario("driver:modes", MP + "._do_matching_and_get_result", ["C12", "C18", "C14"],
+@scenario("driver:modes", MP + "._do_matching_and_get_result", ["C12", "C11", "C18", "C14"],
           inlined=["ConsumerBuilder.build", "CompleteConsumer.__init__", "prepare_observers", "ObserverBuilder.*", "finalize chain"],
           doc="2x2 search/address modes x 3 return modes: one observer, the return mode only selects the field")
 def modes():
@@ -442,14 +442,15 @@ def modes():
                         ok = r is mo._matched
                         what = "the observer's matched flag"
                     elif rmode == "matched_addrs_list":
-                        ok = r is mo.addr_list
-                        what = "the observer's addr_list"
+                        al = mo.addr_list
+                        ok = r is al or (type(r) is list and type(al) is list and len(r) == len(al) and all(x is y for x, y in zip(r, al)))
+                        what = "the observer's addr_list (same elements, same order)"
                     else:
                         ok = r is mo._stringified_instructions or r == mo._stringified_instructions
                         what = "the stream text"
                     obs.append(simple_ob(f"{base}:p{i}:POST-return", MP + "._do_matching_and_get_result", "POST",
                                          f"return mode {rmode} returns {what} of the one observer that collected the hits",
-                                         ok, ["C12"], detail=repr(r)[:100], witness=rmode))
+                                         ok, ["C12", "C11"], detail=repr(r)[:100], witness=rmode))
                     okc = len(rl) == 1 and rl[0][0] == ("finditer" if mode_all else "search") and getattr(rl[0][1], "ident", None) == "rule" \
                         and run.ctx.table.show(rl[0][2]) == "‹join('',records)›"
                     obs.append(simple_ob(f"{base}:p{i}:FRAME-engine-call", MP + "._do_matching_and_get_result", "FRAME",
@@ -460,4 +461,72 @@ def modes():
                     obs.append(simple_ob(f"{base}:p{i}:POST-producer", MP + "._do_matching_and_get_result", "POST",
                                          "one producer is built and processes exactly the configured input file", bool(okp), ["C12", "C15"],
                                          detail=repr(cl), witness=repr(cl)))
+    return obs
+
+
+# --------------------------------------------------------------------------- what is handed back to the caller
+class _ObserverStub:
+    """a matched-observer after an arbitrary scan: ANY list of hits (symbolic sequence), any flag, any stream text"""
+    def __init__(self):
+        self.addr_list = SymSeq("hits", Name("hit_k"), 0)
+        self.matched = Name("matched-flag")
+        self.stringified_instructions = Name("stream")
+
+    def finalize(self):
+        pass
+
+
+class _ConsumerStub:
+    def __init__(self, log):
+        self.log = log
+
+    def add_observer(self, o):
+        self.log.append(("add_observer", type(o).__name__))
+
+
+@scenario("driver:return", MP + "._do_matching_and_get_result", ["C11", "C12"],
+          doc="whatever the scan collected is handed back as it is: the same hits in the same order (for every list of hits), the flag, the stream")
+def returned_value():
+    ensure()
+    obs: List[Ob] = []
+    func = MP + "._do_matching_and_get_result"
+    for rmode in ("bool", "matched_addrs_list", "all_instructions_string"):
+        holder: Dict[str, Any] = {}
+        calls: List[Any] = []
+
+        def fn(rmode=rmode):
+            calls.clear()
+            orig_mo, orig_cb, orig_pb = J.match.MatchedObserver, J.match.ConsumerBuilder.build, J.match.ProducerBuilder.build
+
+            def mk():
+                holder["mo"] = _ObserverStub()
+                return holder["mo"]
+            J.match.MatchedObserver = mk
+            J.match.ConsumerBuilder.build = staticmethod(lambda *a, **k: _ConsumerStub(calls))
+            J.match.ProducerBuilder.build = staticmethod(lambda *a, **k: type("P", (), {"process_file": lambda self, file, iConsumer: calls.append(("process_file",))})())
+            try:
+                mop = J.match.MasterOfPuppets.__new__(J.match.MasterOfPuppets)
+                mop.match_config = J.gd.MatchConfig(pattern_pathstr="p.yaml", input_file=Name("input"), input_file_type=J.gd.InputFileType.assembly,
+                                                    return_only_address=False, return_mode=getattr(J.gd.MatchingReturnMode, rmode),
+                                                    matching_mode=J.gd.MatchingSearchMode.all_finds)
+                cfg = J.gd.JASMConfig()
+                cfg.load_config({})
+                mop.global_config = cfg
+                return [mop._do_matching_and_get_result(regex_rule=Name("rule"), assembly_style=J.gd.DisassStyle.att), holder["mo"]]
+            finally:
+                J.match.MatchedObserver, J.match.ConsumerBuilder.build, J.match.ProducerBuilder.build = orig_mo, orig_cb, orig_pb
+        try:
+            run = sym_run(fn)
+        except Exception as e:    # noqa  (e.g. the hits are iterated natively: sorted / set / filtering)
+            obs.append(simple_ob(f"return:{rmode}:RUN", func, "RUN", "symbolic execution completes", None, ["C11", "C12"], detail=f"unsupported: {e}"))
+            continue
+        for i, p in enumerate(run.paths):
+            if p.kind != "ret":
+                obs.append(simple_ob(f"return:{rmode}:p{i}:EXC", func, "EXC", "no exception", False, ["C11", "C12"], detail=repr(p.value), witness=rmode))
+                continue
+            r, mo = p.value
+            want = {"bool": mo.matched, "matched_addrs_list": mo.addr_list, "all_instructions_string": mo.stringified_instructions}[rmode]
+            obs.append(simple_ob(f"return:{rmode}:p{i}:POST", func, "POST",
+                                 f"return mode {rmode}: the caller receives exactly what the observer holds (every hit, in scan order, nothing added)",
+                                 r is want, ["C11", "C12"], detail=repr(r)[:120], witness=rmode))
     return obs
